@@ -29,7 +29,7 @@ REGISTRY = {
         "quick": {"workers": 16, "n_hist": 1600},
         "thorough": {"workers": 16, "n_hist": 160000}}},
     "C12": {"level": "exploration", "tiers": {
-        "quick": {"workers": 16, "n_hist": 150, "n_scale": 4,
+        "quick": {"workers": 16, "n_hist": 420, "n_scale": 4,
                   "scale_sizes": [40, 300, 2100, 1100]},
         "thorough": {"workers": 16, "n_hist": 12000, "n_scale": 320,
                      "scale_sizes": [300, 700, 1100, 2100, 4200]}}},
